@@ -19,7 +19,7 @@ func init() {
 		Patterns: []string{"./pkg/upstream/cluster", "./pkg/upstream/healthcheck"},
 		Explanation: "(R1) atomic read-modify-write detector: a value obtained by atomic.Load*(p) that flows through arithmetic into atomic.Store*(p) on the same address is a lost-update hazard under any interleaving of two writers; accepted forms are a CompareAndSwap retry loop, atomic.Or/And, or both under one mutex. Applied to every function of the health packages (quick) and the whole module (thorough). " +
 			"(R2) shape of the flag algebra: Set writes old|mask, Clear writes old&^mask through the pointer parameter, the CAS's expected value is the very load it derived the new word from and failure loops back; Health() compares the whole word with 0; ContainHealthFlag masks. " +
-			"(R3) threshold automaton of the active checker: the opposite counter is reset on every result, the own counter is incremented only in the opposite state, compared (== or >=) with the configured threshold after the increment, and the flag flip and changed=true share one block; `changed` reaches both callbacks; per received result exactly one of HandleSuccess/HandleFailure runs and stale ids are ignored. (R4) GetHealthFlagPointer returns on every path the value Load/LoadOrStore returned; the registry is append-only; every store to simpleHost.healthFlags stores GetHealthFlagPointer(a) with a the value stored to addressString of the same object. (R3, round 6) every value stored into the checker's thresholds is a positive constant or non-zero on the edge it arrives by; SetHealthFlag/ClearHealthFlag with the constant FAILED_ACTIVE_HC is called only in sessionChecker.HandleFailure/HandleSuccess.",
+			"(R3) threshold automaton of the active checker: the opposite counter is reset on every result, the own counter is incremented only in the opposite state, compared (== or >=) with the configured threshold after the increment, and the flag flip and changed=true share one block; `changed` reaches both callbacks; per received result exactly one of HandleSuccess/HandleFailure runs and stale ids are ignored. (R4) GetHealthFlagPointer returns on every path the value Load/LoadOrStore returned; the registry is append-only; every store to simpleHost.healthFlags stores GetHealthFlagPointer(a) with a the value stored to addressString of the same object. (R3, round 6) every value stored into the checker's thresholds is a positive constant or non-zero on the edge it arrives by; SetHealthFlag/ClearHealthFlag with the constant FAILED_ACTIVE_HC is called only in sessionChecker.HandleFailure/HandleSuccess. (R3 every-check-timed) no path in OnCheck reaches CheckHealth without storing utils.NewTimer(..) into checkTimeout; no utils.Timer.Reset call in the package.",
 		Run:      runC16,
 		Thorough: c16Thorough,
 	})
@@ -147,6 +147,7 @@ func runC16(c *Ctx) {
 	c16Automaton(c)
 	c16ThresholdsPositive(c)
 	c16ActiveFlagOwner(c)
+	c16EveryCheckTimed(c)
 }
 
 func c16Thorough(c *Ctx) {
@@ -882,4 +883,48 @@ func c16ActiveFlagOwner(c *Ctx) {
 	if n < 2 {
 		c.Unresolved("C16.R3", "SetHealthFlag/ClearHealthFlag(FAILED_ACTIVE_HC) call sites (expected HandleFailure and HandleSuccess)")
 	}
+}
+
+// c16EveryCheckTimed (R3): every health check runs under a freshly armed timeout.
+// A check that hangs is a failed check only because its timeout fires: OnTimeout feeds the failure into the automaton.
+// mosn.io/pkg/utils.Timer is one-shot in a strong sense - after Stop() its Reset() does nothing (read from its source) -
+// and the Start loop stops the timeout timer whenever a check answers in time. Clauses: (a) in sessionChecker.OnCheck no
+// path reaches the session's CheckHealth call without storing the result of utils.NewTimer(..) into checkTimeout first;
+// (b) nothing in the health-check package re-arms a utils.Timer with Reset (timers are replaced, never reset).
+func c16EveryCheckTimed(c *Ctx) {
+	pkg := "pkg/upstream/healthcheck"
+	fn := c.M(pkg, "sessionChecker", "OnCheck")
+	if fn == nil {
+		c.Unresolved("C16.R3", "sessionChecker.OnCheck")
+		return
+	}
+	checks := callsIn(fn, false, func(cc *ssa.CallCommon) bool { return cc.IsInvoke() && cc.Method.Name() == "CheckHealth" })
+	if len(checks) != 1 {
+		c.Fail("C16.R3", funcKey(fn)+":check-under-fresh-timeout", fn.Pos(), fmt.Sprintf("expected one CheckHealth call in OnCheck, found %d", len(checks)))
+	} else {
+		arm := func(in ssa.Instruction) bool {
+			st, ok := in.(*ssa.Store)
+			if !ok {
+				return false
+			}
+			if _, f, _, okf := fieldAddrInfo(st.Addr); !okf || f != "checkTimeout" {
+				return false
+			}
+			call, isC := st.Val.(*ssa.Call)
+			return isC && strings.HasSuffix(calleeName(call.Common()), "utils.NewTimer")
+		}
+		bad := existsPath(fn, nil, func(in ssa.Instruction) bool { return in == checks[0].Instr }, arm)
+		c.Check("C16.R3", funcKey(fn)+":check-under-fresh-timeout", checks[0].Instr.Pos(), bad == nil, "a new timeout timer is armed before every check", "OnCheck can start a health check without arming a new timeout timer (utils.NewTimer stored into checkTimeout): a utils.Timer that was stopped - as the timeout timer is whenever a check answers in time - cannot be re-armed, so a check that hangs afterwards never times out, is never counted as a failure and the host is never marked unhealthy")
+	}
+	n := 0
+	for _, f := range c.PkgFuncs(pkg) {
+		for _, cs := range callsIn(f, false, func(cc *ssa.CallCommon) bool {
+			cal := cc.StaticCallee()
+			return cal != nil && strings.HasSuffix(cal.String(), "utils.Timer).Reset")
+		}) {
+			n++
+			c.Fail("C16.R3", fmt.Sprintf("%s:timer-reset#%d", funcKey(f), n), cs.Instr.Pos(), "a utils.Timer is re-armed with Reset() in "+f.Name()+": Reset does nothing on a timer that has been stopped, so the timer silently never fires again")
+		}
+	}
+	c.Pass("C16.R3", "pkg/upstream/healthcheck:timers-replaced-not-reset", fn.Pos(), "no utils.Timer.Reset call in the package")
 }
